@@ -303,7 +303,31 @@ def _enum_reject(tier):
     return cases
 
 
+def _enum_bigbatch(tier):
+    """single calls with MANY samples (M*n above 2**22, where an
+    implementation is tempted to work block-wise): round trip of 1-D and 2-D
+    index arrays.  Memory of the library's distance matrix: M*n*16 bytes."""
+    cases = []
+    sizes = [("QAM", 4096, 1100), ("PSK", 1024, 4200), ("QAM", 256, 17000),
+             ("QAM", 64, 66000)]
+    if tier == "thorough":
+        sizes += [("QAM", 4096, 2500), ("PSK", 256, 40000),
+                  ("QAM", 16, 270000), ("QPSK", 4, 1100000),
+                  ("PSK", 8, 1100000), ("QAM", 1024, 9000)]
+    for i, (cls, M, n) in enumerate(sizes):
+        cfg = dict(cls=cls, M=M, phi=0.0 if cls != "QAM" else None,
+                   set_phi=None)
+        if cls == "QPSK":
+            cfg = dict(cls="QPSK", M=4, phi=None, set_phi=None)
+        dims = [n] if i % 2 == 0 else [2, n // 2]
+        cases.append(dict(part="roundtrip", cfg=cfg, dims=dims, kind="int64",
+                          seed=1000 + i, transposed=False, big=True))
+    return cases
+
+
 PARTS = [
+    Part("bigbatch", enumerate=_enum_bigbatch, quick_shards=2,
+         thorough_shards=3),
     Part("table", enumerate=_enum_table, exhaustive=True, quick_shards=8),
     Part("reject", enumerate=_enum_reject, exhaustive=True, quick_shards=2),
     Part("constellation", _constellation_st, quick=400, thorough=20000,
